@@ -408,6 +408,17 @@ def nblocks(env, args, kwargs):
     return max([len(a) for a in list(args) + list(kwargs.values()) if isinstance(a, env.BlockArray)] + [0])
 
 
+def _plain_signature(fn):
+    """(positional-or-keyword names, keyword-only names) when the signature has nothing else, else None"""
+    try:
+        ps = list(inspect.signature(fn).parameters.values())
+    except (TypeError, ValueError):
+        return None
+    if any(p.kind not in (inspect.Parameter.POSITIONAL_OR_KEYWORD, inspect.Parameter.KEYWORD_ONLY) for p in ps):
+        return None
+    return [p.name for p in ps if p.kind is inspect.Parameter.POSITIONAL_OR_KEYWORD], [p.name for p in ps if p.kind is inspect.Parameter.KEYWORD_ONLY]
+
+
 def run_call(env, ctx, model, section, kind, fn_id, raw_fn, snp_fn, args, kwargs, tag, known_id=None, key="shape"):
     """kind in map | void | reduce | create.  Returns True when model and code agree."""
     atoms, jargs, jkw = args_atoms(args, kwargs)
@@ -419,6 +430,11 @@ def run_call(env, ctx, model, section, kind, fn_id, raw_fn, snp_fn, args, kwargs
         if m[0] == "ok":
             # same calls, results discarded: rerun through the void wrapper with the complete table
             m = run2_void(model, fn_id, jargs, jkw, ev)
+    elif kind == "reduce" and _plain_signature(raw_fn) is not None:
+        # the model binds the arguments itself (`bindCall`): which positional reaches `axis`, keyword-only names, TypeErrors
+        pos_params, kw_only = _plain_signature(raw_fn)
+        m = run2(model, "reduce_call", dict(fn=fn_id, pos_params=pos_params, kw_only=kw_only, args=jargs, kwargs=jkw), ev)
+        ctx.count("reduction:bound-by-the-model")
     else:
         try:
             bound = inspect.signature(raw_fn).bind(*args, **kwargs).arguments
@@ -782,7 +798,12 @@ def section_reductions(env, ctx, model):
                     ("axis0+keepdims", [x], {"axis": 0, "keepdims": True}),
                 ]
                 if name == "linalg.norm":
-                    cases += [("ord1", [x], {"ord": 1}), ("ordinf/pos", [x, np.inf], {})]
+                    cases += [("ord1", [x], {"ord": 1}), ("ordinf/pos", [x, np.inf], {}), ("ordNone+axis0/pos", [x, None, 0], {}),
+                              ("ord+axis/pos+keepdims-kw", [x, None, 0], {"keepdims": True}), ("all-positional", [x, None, 0, False], {})]
+                # binding errors: too many positionals, axis given twice, unknown keyword
+                npar = len(inspect.signature(raw).parameters)
+                cases += [("too-many-positional", [x] + [None] * npar, {}), ("axis-twice", [x, 0], {"axis": 0}), ("unknown-keyword", [x], {"axes": 0}),
+                          ("block-by-keyword+axis-pos-missing", [], {p0: x, "keepdims": False})]
                 if "where" in inspect.signature(raw).parameters:
                     mask = gen_block(env, rng, st, "b")
                     cases += [("two-blocks-noaxis", [x], {"where": mask}), ("two-blocks-axis", [x], {"where": mask, "axis": 0})]
@@ -2104,8 +2125,12 @@ def correspond(ctx, model):
             import traceback
 
             frames = [f for f in traceback.extract_tb(e.__traceback__) if str(common.REPO) in f.filename]
-            if not frames:
+            if not frames and not ctx.disagreements:
                 raise
+            if not frames:
+                # no scico frame, but the implementation already disagreed in this run: a consequence (e.g. jax rejecting a wrong
+                # result of scico), reported as such and never as an infrastructure failure
+                frames = traceback.extract_tb(e.__traceback__)[-1:]
             ctx.disagree("%s.%s" % ("block", sec.__name__), {"section": sec.__name__, "exception": repr(e)[:300], "raised_in": f"{frames[-1].filename}:{frames[-1].lineno}"},
                          "raised", "no exception")
         timing[sec.__name__] = round(time.time() - t0, 1)
@@ -2178,9 +2203,81 @@ def findings(ctx, model):
         ctx.known_finding(KNOWN_RMOD, still)
 
 
+# which sections exercise which transcribed function (targeted panel after a broken source obligation)
+PANELS = {
+    "BlockArray.__init__": ["section_history", "section_pytree", "section_setitem"],
+    "BlockArray.dtype": ["section_history", "section_setitem"],
+    "BlockArray.__len__": ["section_sequence", "section_wrappers"],
+    "BlockArray.__getitem__": ["section_sequence", "section_slices", "section_methods"],
+    "BlockArray.__setitem__": ["section_history", "section_setitem", "section_setslice"],
+    "_unflatten": ["section_transparency", "section_trees", "section_pytree"],
+    "@call:jax.tree_util.register_pytree_node": ["section_transparency", "section_trees", "section_pytree"],
+    "_unary_op_wrapper": ["section_operators"],
+    "_binary_op_wrapper": ["section_operators", "section_nonlifted"],
+    "_da_prop_wrapper": ["section_methods"],
+    "_da_method_wrapper.method_ba": ["section_methods", "section_sequence"],
+    "map_func_over_tuple_of_tuples": ["section_creation", "section_random"],
+    "_num_blocks_in_args": ["section_wrappers", "section_wrappers_exhaustive", "section_reductions"],
+    "_block_args_kwargs": ["section_wrappers", "section_wrappers_exhaustive"],
+    "map_func_over_blocks": ["section_wrappers", "section_wrappers_exhaustive", "section_reductions"],
+    "map_void_func_over_blocks": ["section_wrappers"],
+    "add_full_reduction": ["section_reductions"],
+    "is_nested": ["section_creation"],
+    "shape_to_size": ["section_creation"],
+    "_add_seed.fun_alt": ["section_random"],
+    "_wrap": ["section_random"],
+    "_is_wrappable": ["section_random"],
+}
+
+
+def targeted_search(ctx, model, env):
+    """run the sections that exercise the functions whose normalised body differs from the pinned one, collecting only what the
+    property oracles report on the implementation; -> (changed rows, first failing input or None)"""
+    import block_translate
+
+    rows = block_translate.changed_rows("block")
+    secs = []
+    for r in rows:
+        for sname in PANELS.get(r.split(":", 1)[1], []):
+            if sname not in secs:
+                secs.append(sname)
+    sub = common.Ctx(PROP, "quick", ctx.seed)
+    sub.known = dict(getattr(ctx, "known", {}))
+    found = []
+
+    def collect(op, case, impl, mdl, oracle=None, known_id=None, note=""):
+        if known_id is not None and sub.is_known(known_id):
+            return
+        if oracle is not None:
+            try:
+                r = oracle(case)
+            except Exception:  # noqa: BLE001
+                r = None
+            if r is not None:
+                found.append(dict(r, op=op))
+
+    sub.disagree = collect
+    for sname in secs:
+        try:
+            globals()[sname](env, sub, model)
+        except (common.Infra, ModelErr):
+            raise
+        except Exception as e:  # noqa: BLE001  (the changed function raising inside a section is itself a finding)
+            found.append({"section": sname, "raised": repr(e)[:300]})
+        if found:
+            break
+    return rows, (found[0] if found else None)
+
+
 def search(ctx, model, why):
     """failing-input search on the implementation alone: documented block-wise behaviour, no model"""
     env = Env()
+    if why is not None and "BlockSource" in str(why.get("module", "")):
+        rows, hit = targeted_search(ctx, model, env)
+        ctx.extra["changed_source_rows"] = rows
+        if hit is not None:
+            return dict(hit, changed_functions=rows)
+        return None
     oracle = make_oracle(env)
     rng = ctx.rng
     t = env.tables
